@@ -31,7 +31,8 @@ Caps == <<"Butt", "Round", "Square">>
 Joins == <<"Miter", "Round", "Bevel">>
 Miters == << <<4, 1>>, <<0, 1>>, <<1, 1>>, <<39, 1>> >>
 Dashes == << <<>>, <<3, 2>>, <<0>>, <<0, 0>>, <<5, -5>>, <<-1, 5>>, <<"NaN">>, <<"Inf">>, <<"Max", "Max">>, <<5>>, <<3, 2, 1>>,
-             <<0, 4>>, <<4, 0>>, <<"Inf", 1>>, <<1, "NaN">>, <<"Max", 1, "Max", 1>>, <<"-Inf", 3>>, <<1, 1, 1, 1, 1, 1>> >>
+             <<0, 4>>, <<4, 0>>, <<"Inf", 1>>, <<1, "NaN">>, <<"Max", 1, "Max", 1>>, <<"-Inf", 3>>, <<1, 1, 1, 1, 1, 1>>,
+             <<"Max">>, <<"Max", 1, 1>> >>      \* odd length: the doubled period overflows although the sum is finite
 Offsets == <<0, -3, 7, "Inf", "-Inf", "NaN", "Max", "-Max", <<-1, 1>>, 1000000, -1000000, "MinPos">>
 Alphas == << <<1, 1>>, <<0, 1>>, <<1, 2>>, <<3, 2>>, <<300, 1>>, <<-1, 1>>, "NaN", "Inf", "-Inf", "Max", "-0", "MinPos">>
 Modes == <<"SrcOver", "Src", "Clear", "Xor", "Multiply", "ColorDodge", "SoftLight", "DstAtop", "Add", "Exclusion">>
